@@ -85,7 +85,7 @@ def run(ck, prog, tier, load):
             c2, tr = strip_not(c, True)
             if not isinstance(lab, bool):
                 return False
-            if c2[0] == "arg" and c2[2] == "hidden_files":
+            if c2[0] == "arg" and c2[1] in args_of_type(pp, r"^bool$"):
                 return (lab if tr else not lab) is True
             return seg_pred(r"core::str::starts_with$", ord("."), False, pp)(c, lab)
         ok, wit = guarded_by(pp, bb, hidden_ok)
@@ -112,12 +112,14 @@ def run(ck, prog, tier, load):
     r2 = pp.reach([0], removed_edges=edges_where(pp, not_owned) | pp.dead_edges())
     ok = bool(edges_where(pp, count_equal)) and all(bb in r2 for bb in oks) and not any(bb in r for bb in oks)
     ck.ob("C16-b.decoded-slash-rejected", "parse_path", ok, pp, oks[0] if oks else None, "assuming percent-decoding changed the path (Cow::Owned), success is reachable only across the edge where the '/' count still equals the raw path's count")
-    raw_count = [i for i, l in enumerate(pp.locals) if l.get("n") == "segment_count"]
+    # the reference count: the usize variable(s) compared on the count_equal edge, defined by an Iterator::count()
+    raw_count = [l for l in user_locals(pp, r"^usize$") if any(e_calls(pp.def_expr(d, 8), r"Iterator.*::count$") for d in pp.defs().get(l, []))]
+    raw_args = args_of_type(pp, r"^&str$")
     ok = False
     for l in raw_count:
         for d in pp.defs().get(l, []):
             e = pp.def_expr(d, 8)
-            if e_calls(e, r"Iterator.*::count$") and any(r_[0] == "arg" and r_[2] == "path" for r_ in e_roots(e)) and not e_calls(e, r"percent_decode"):
+            if e_calls(e, r"Iterator.*::count$") and root_is(e, raw_args) and not e_calls(e, r"percent_decode"):
                 ok = True
     ck.ob("C16-b.count-from-raw-path", "segment_count", ok, pp, None, "the reference slash count is taken from the raw (undecoded) path argument")
     comp = [a for a in pp.live if pp.branch(a) and pp.branch(a)[0][0] == "discr" and (pp.branch(a)[0][2] or "").endswith("path::Component")]
@@ -133,7 +135,7 @@ def run(ck, prog, tier, load):
             if t["k"] != "assert" or not t["msg"].startswith("Overflow"):
                 continue
             ops = [b.op_expr(o) for o in t["mops"]]
-            if not any(tainted(o) or any(r[0] in ("var", "phi") and r[2] in ("length", "offset") for r in e_roots(o)) for o in ops):
+            if not any(tainted(o) or root_is(o, user_locals(ir, r"^u64$")) for o in ops):
                 continue
             n_a += 1
             op = t["msg"][9:-1]
@@ -163,7 +165,12 @@ def run(ck, prog, tier, load):
     for code in ("RANGE_NOT_SATISFIABLE", "PARTIAL_CONTENT", "PRECONDITION_FAILED", "NOT_MODIFIED"):
         ck.ob("C16-c.status-exit", code, code in st, ir, st.get(code), "NamedFile::into_response has a %s exit" % code, nontrivial=False)
     if "PARTIAL_CONTENT" in st:
-        ok = any(is_local_named(strip_not(c)[0], "ranged_req") and (l if strip_not(c)[1] else not l) is True for c, l, a in ir.guards(st["PARTIAL_CONTENT"]) if isinstance(l, bool))
+        # the status is set under a bool variable that becomes true only after HttpRange::parse produced a range
+        rp = [bb for bb, t in ir.calls(r"HttpRange::parse$")]
+        ok = False
+        for l in locals_guarding(ir, st["PARTIAL_CONTENT"], True):
+            trues = [d for d in ir.defs().get(l, []) if ir.def_expr(d, 3)[:3] == ("const", None, 1)]
+            ok = ok or (bool(trues) and bool(rp) and all(any(ir.dominates(r_, d[1]) for r_ in rp) for d in trues))
         ck.ob("C16-c.partial-only-when-ranged", "206", ok, ir, st["PARTIAL_CONTENT"], "206 is set only when a satisfiable range was parsed")
 
     # ---- (d) reader accounting -----------------------------------------------------------------
